@@ -118,9 +118,23 @@ def binpath(cfg):
     return os.path.join(ROOT, ".bin", name + ".test")
 
 
+def point_module_at_repo():
+    """The module's replace directive names /repo; a background run on a
+    snapshot (vp run --with-repo) sets VERIF_REPO to its own copy."""
+    mod = os.path.join(ROOT, "go.mod")
+    text = open(mod).read()
+    want = "replace github.com/Comcast/sheens => " + REPO
+    import re as _re
+    new = _re.sub(r"replace github.com/Comcast/sheens => \S+", want, text)
+    if new != text:
+        with open(mod, "w") as f:
+            f.write(new)
+
+
 def build(cfg):
     out = binpath(cfg)
     os.makedirs(os.path.dirname(out), exist_ok=True)
+    point_module_at_repo()
     sync_gosum()
     cmd = ["go", "test", "-c", "-vet=off", "-o", out]
     if cfg["race"]:
